@@ -268,6 +268,9 @@ def e2e_events():
     evs = []
     for b in BLOCKS:
         evs.append(('block', b))
+    # the same block directive followed by two bare prompt lines (still a directive on its own line)
+    for b in (BLOCKS[0], BLOCKS[1], BLOCKS[2]):
+        evs.append(('blockb', b))
     for shape in ('one', 'strlit', 'bracket', 'for', 'deco', 'decocls'):
         multi = shape in ('bracket', 'for', 'deco', 'decocls')
         for style in (('dots', 'chev') if multi else ('chev',)):
@@ -287,6 +290,8 @@ OPT_EVENTS = [('opt', o) for o in OPTIONS]
 def ev_cost(ev):
     if ev[0] == 'opt':
         return 1
+    if ev[0] == 'blockb':
+        return 2
     if ev[0] == 'block':
         return 1 if len(ev[1]) == 1 else 2
     _, shape, style, inl, where, w = ev
@@ -306,6 +311,8 @@ def ev_cost(ev):
 
 def render_event(ev, k, okwant=None):
     """returns list of docstring lines; okwant = lines of a correct want chosen by the model"""
+    if ev[0] == 'blockb':
+        return ['>>> # xdoctest: ' + ', '.join(dtext(d) for d in ev[1]), '>>>', '>>>']
     if ev[0] == 'block':
         return ['>>> # xdoctest: ' + ', '.join(dtext(d) for d in ev[1])]
     _, shape, style, inl, where, w = ev
@@ -394,7 +401,7 @@ class E2ESpec(Spec):
             name = ev[1][1:]
             st[name] = ev[1][0] == '+'
             return (tuple(sorted(st.items())), verdict, ran)
-        if ev[0] == 'block':
+        if ev[0] in ('block', 'blockb'):
             for d in ev[1]:
                 st = apply_directive(st, d)
             return (tuple(sorted(st.items())), verdict, ran)
@@ -437,9 +444,9 @@ class E2ESpec(Spec):
             k = i + 1
             if ev[0] == 'opt':
                 opt = ev[1]
-            if ev[0] in ('opt', 'block'):
+            if ev[0] in ('opt', 'block', 'blockb'):
                 S = self.step(S, ev)
-                if ev[0] == 'block':
+                if ev[0] != 'opt':
                     lines += render_event(ev, k)
                 continue
             st = dict(S[0])
@@ -516,7 +523,7 @@ class E2ESpec(Spec):
 
 
 SUB_ALPHABET = [ev for ev in E2E_EVENTS
-                if ev[0] == 'block' or (ev[1] == 'one' and ev[5] in ('none', 'wrong'))]
+                if ev[0] in ('block', 'blockb') or (ev[0] == 'stmt' and ev[1] == 'one' and ev[5] in ('none', 'wrong'))]
 
 
 class PluginSpec(E2ESpec):
